@@ -2126,6 +2126,60 @@ func unrollSmallRanges(p *packages.Package, f *ast.File, src []byte, counts map[
 		}
 		return true
 	})
+	var assignedF map[*types.Var]bool
+	assignedFields := func() map[*types.Var]bool {
+		if assignedF != nil {
+			return assignedF
+		}
+		assignedF = map[*types.Var]bool{}
+		mark := func(e ast.Expr) {
+			for {
+				switch y := e.(type) {
+				case *ast.ParenExpr:
+					e = y.X
+					continue
+				case *ast.IndexExpr:
+					// x.f[i] = … on an array field writes the field; on a map or slice it does not, but be strict
+					if _, isArr := info.TypeOf(y.X).Underlying().(*types.Array); isArr {
+						e = y.X
+						continue
+					}
+				case *ast.SelectorExpr:
+					if fv, ok := info.Uses[y.Sel].(*types.Var); ok && fv.IsField() {
+						assignedF[fv] = true
+					}
+				}
+				return
+			}
+		}
+		for _, sf := range p.Syntax {
+			ast.Inspect(sf, func(n ast.Node) bool {
+				switch y := n.(type) {
+				case *ast.AssignStmt:
+					for _, l := range y.Lhs {
+						mark(l)
+					}
+				case *ast.IncDecStmt:
+					mark(y.X)
+				case *ast.UnaryExpr:
+					if y.Op == token.AND {
+						mark(y.X)
+					}
+				case *ast.RangeStmt:
+					if y.Tok == token.ASSIGN {
+						if y.Key != nil {
+							mark(y.Key)
+						}
+						if y.Value != nil {
+							mark(y.Value)
+						}
+					}
+				}
+				return true
+			})
+		}
+		return assignedF
+	}
 	var pure func(e ast.Expr) bool
 	pure = func(e ast.Expr) bool {
 		switch x := e.(type) {
@@ -2144,6 +2198,13 @@ func unrollSmallRanges(p *packages.Package, f *ast.File, src []byte, counts map[
 		case *ast.SelectorExpr:
 			if _, isConst := info.Uses[x.Sel].(*types.Const); isConst {
 				return true
+			}
+			// a field that is set only where its struct is built (never assigned, never addressed, anywhere in the
+			// package) read through a stable variable: reading it once before the loop or once per copy is the same
+			if fv, isVar := info.Uses[x.Sel].(*types.Var); isVar && fv.IsField() && !assignedFields()[fv] {
+				if id, isId := x.X.(*ast.Ident); isId {
+					return pure(id)
+				}
 			}
 			return false
 		case *ast.ParenExpr:
